@@ -92,6 +92,7 @@ func newPathCtx(sol *solver, prefix []bool, harness string) *pathCtx {
 	px := &pathCtx{sol: sol, prefix: prefix, occ: map[string]int{}, ufDecl: map[string]string{}, harness: harness}
 	px.res = &pathResult{labels: map[string]bool{}, funcs: map[string]bool{}}
 	px.script = &strings.Builder{}
+	sol.script = func() string { return px.script.String() }
 	px.stubsUsed = map[string]bool{}
 	px.assertSites = map[string]bool{}
 	sol.send("(push 1)")
@@ -183,8 +184,14 @@ func (px *pathCtx) branch(c sym, why string) bool {
 		// an unconstrained fresh boolean: both sides are feasible
 		rt, rf = "sat", "sat"
 	} else {
+		// the path condition is satisfiable (invariant), so if one side is
+		// infeasible the other one is feasible: one query suffices then.
 		rt = px.feasible(c.t)
-		rf = px.feasible("(not " + c.t + ")")
+		if rt == "unsat" {
+			rf = "sat"
+		} else {
+			rf = px.feasible("(not " + c.t + ")")
+		}
 	}
 	if rt == "error" || rf == "error" {
 		panic(unsupported{"solver error at branch: " + strings.Join(px.sol.errs, "; ")})
